@@ -66,7 +66,13 @@ func (s *scen) gc(begin, end int, merge bool) {
 
 // small set with a 1-byte symbolic body (one 256-byte block)
 func (s *scen) setS(key string) {
-	s.set(key, vrt.Bytes("v."+key, 1), vrt.U32("f."+key)&^(FLAG_COMPRESS|FLAG_CLIENT_COMPRESS), 0)
+	v := vrt.Bytes("v."+key, 1)
+	if s.distinct {
+		if m := s.model[key]; m != nil && m.ver > 0 {
+			vrt.Assume(Getvhash(v) != m.vhash)
+		}
+	}
+	s.set(key, v, vrt.U32("f."+key)&^(FLAG_COMPRESS|FLAG_CLIENT_COMPRESS), 0)
 }
 
 // ---- independent record scanner (C18): walks a data file by the documented layout ----
